@@ -929,8 +929,50 @@ def r313(ctx, R):
     R.count('R3.13', len(writes), 3)
 
 
+def r314(ctx, R):
+    """_check_same_subtree answers from the ancestors of every provider in
+    the set: apart from the singleton set (trivially one subtree) no path
+    returns a value that was not computed from _get_ancestors_by_one_uuid -
+    a shortcut over roots or counts is wrong as soon as a sharing provider
+    (its own root) is among them."""
+    from psa import pathval
+    prog = ctx.prog
+    f = prog.func(AC + ':_check_same_subtree')
+    P = f.params[0]
+    paths = [p for p in pathval.paths_of(f) if p.end == 'return']
+
+    def singleton(a, pol):
+        return pol and isinstance(a, ast.Compare) and isinstance(
+            a.ops[0], ast.Eq) and src(a.left).replace(' ', '') == \
+            'len(%s)' % P and src(a.comparators[0]) == '1'
+    bad = []
+    n = 0
+    for p in paths:
+        ret = p.stmts[-1]
+        v = p.value_at(ret, ret.value) if ret.value is not None else None
+        n += 1
+        uses = v is not None and any(
+            isinstance(x, ast.Call) and src(x.func).endswith(
+                '_get_ancestors_by_one_uuid') for x in ast.walk(v))
+        if uses:
+            continue
+        if pathval.holds(p, singleton) and isinstance(
+                v, ast.Constant) and v.value is True:
+            continue
+        bad.append('returns %s when %s' % (
+            src(v)[:40] if v is not None else None,
+            [t for t, pl in p.cond_srcs()][-2:]))
+    R.ob('R3.14', '_check_same_subtree:answers-from-ancestors',
+         bool(paths) and not bad,
+         'every answer other than the singleton case is computed from the '
+         'ancestors of each provider of the set', bad[:3] or
+         '%d returning paths' % n, func=f)
+    R.count('R3.14', n, 2)
+
+
 def run(ctx, R):
     r313(ctx, R)
+    r314(ctx, R)
     r31(ctx, R)
     r32(ctx, R)
     r33(ctx, R)
